@@ -68,7 +68,7 @@ PROPS["C09"] = {
 }
 
 PROPS["C08"] = {
-    "channels": [{"cmd": "run-json"}, {"cmd": "run-json-exh"}, {"cmd": "run-c10", "shards": 8}],
+    "channels": [{"cmd": "run-json"}, {"cmd": "run-json-exh"}, {"cmd": "run-c10", "shards": 8}, {"cmd": "run-json-deep", "shards": 6}],
     "cone": r"^MISMATCH (json|json-fuel|judge|harness|driver)",
     "exhaustive": True,
     "data_obligations": ["children of text/plain before json are html, svg, xml, php, js, lua, perl, python"],
